@@ -526,7 +526,9 @@ func c19c(c *Ctx) {
 		}
 	}
 	want := mkDNF([]string{"+(" + ch + " == 35)"}, []string{"+(" + ch + " == 47)", "+((*lexer.Lexer).peekChar($0)@0 == 47)"})
-	got := dropAtoms(bodyD, func(a string) bool { return strings.Contains(a, "queuedTokens") })
+	// only what is said about the current and the next character matters here (the test for
+	// queued tokens, however it is spelled, precedes the loop)
+	got := dropAtoms(bodyD, func(a string) bool { return !strings.Contains(a, "$0.ch") && !strings.Contains(a, "peekChar(") })
 	c.Check(nSkipLine == 1 && nSkipWs == 1 && dnfEquiv(got, want), "NextToken/comment-openers", c.W.Pos(head.Instrs[0].Pos()), "a comment starts with '#' or '//' and is skipped to the end of the line, followed by whitespace skipping", "the comment loop runs under ["+got.String()+"], expected (ch == '#') || (ch == '/' && peekChar() == '/'), skipping the line and then whitespace")
 	pre := false
 	for _, ci := range callsToIn(fn, sw) {
